@@ -3,6 +3,7 @@ package main
 // mon_reward.go — reward shadow (entitlement at receipt), C13 reward entitlement, C12 pool solvency.
 
 import (
+	abcitypes "github.com/cometbft/cometbft/abci/types"
 	"fmt"
 	"math/big"
 	"os"
@@ -183,10 +184,30 @@ type claimObs struct {
 	Exists bool
 }
 
+func (rs *RewardShadow) debugIndex(s *Snap, idx int) {
+	dbg := os.Getenv("VMON_DEBUG_POS")
+	if dbg == "" {
+		return
+	}
+	for _, vo := range s.ValOrder {
+		v := s.Vals[vo]
+		if !v.HasInfo {
+			continue
+		}
+		for _, h := range v.Info.GlobalRewardHistory {
+			key := rs.R.W.Name(vo) + "," + h.Alliance
+			if strings.Contains(dbg, key) && h.Denom == "stake" {
+				fmt.Printf("  INDEX step %d %s/%s/%s = %s\n", idx, rs.R.W.Name(vo), h.Alliance, h.Denom, h.Index)
+			}
+		}
+	}
+}
+
 func (rs *RewardShadow) ProcessTx(o *TxOutcome) []claimObs {
 	if rs.lastIdx == o.Idx {
 		return rs.lastClaims
 	}
+	rs.debugIndex(o.Post, o.Idx)
 	rs.lastIdx = o.Idx
 	rs.lastClaims = nil
 	if !o.Res.OK {
@@ -206,6 +227,14 @@ func (rs *RewardShadow) ProcessTx(o *TxOutcome) []claimObs {
 			rs.noteOverpaid(pk, c.Coins, obs.Value)
 			if dbg := os.Getenv("VMON_DEBUG_POS"); dbg != "" && strings.Contains(rs.R.W.Name(pk.Del)+","+rs.R.W.Name(pk.Val)+","+pk.Denom, dbg) {
 				fmt.Printf("  CLAIM step %d %s pos %s paid %s\n", o.Idx, o.Step.K, dbg, c.Coins)
+				if d0, ok := o.Pre.Dels[pk]; ok {
+					fmt.Printf("    delegation history before: lastClaimHeight %d %v\n", d0.LastRewardClaimHeight, d0.RewardHistory)
+				}
+				for _, ws := range o.Pre.Weights {
+					if ws.Val == pk.Val && ws.Denom == pk.Denom {
+						fmt.Printf("    snapshot height %d prevWeight %s %v\n", ws.Height, ws.Snapshot.PrevRewardWeight, ws.Snapshot.RewardHistories)
+					}
+				}
 			}
 			rs.settle(pk)
 		}
@@ -223,6 +252,7 @@ func (rs *RewardShadow) ProcessBlock(o *BlockOutcome) {
 	if rs.lastIdx == o.Idx {
 		return
 	}
+	rs.debugIndex(o.PostBeg, o.Idx)
 	rs.lastIdx = o.Idx
 	rs.lastClaims = nil
 	if o.EndRes.Failed() {
@@ -257,7 +287,8 @@ func (rs *RewardShadow) ProcessBlock(o *BlockOutcome) {
 	}
 	// slashes: value-changing for every position of the slashed validator's assets (factor g elsewhere)
 	for _, s := range o.Slashes {
-		rs.withdrawals(s.Pre, s.Pre.Time, s.Ev)
+		// rewards claimed inside the callback are received after the bonded part of the slash was applied
+		rs.withdrawals(afterBondedSlash(s.Pre, s.Val, s.Fraction), s.Pre.Time, s.Ev)
 		assets := map[string]bool{}
 		if v := s.Pre.Vals[s.Val]; v != nil && v.HasInfo {
 			for _, c := range v.Info.ValidatorShares {
@@ -546,10 +577,37 @@ func (m *MonC13) AfterTx(o *TxOutcome) {
 
 func (m *MonC13) AfterBlock(o *BlockOutcome) {
 	m.rs.ProcessBlock(o)
+	if os.Getenv("VMON_DEBUG") == "events" {
+		for _, evs := range [][]abciEvent{o.EndEv.Raw, o.BegEv.Raw} {
+			for _, e := range evs {
+				line := e.Type
+				hit := false
+				for _, a := range e.Attributes {
+					line += " " + a.Key + "=" + a.Value
+					if a.Value == m.R.W.PoolAddr.String() || strings.Contains(a.Value, os.Getenv("VMON_EVGREP")) && os.Getenv("VMON_EVGREP") != "" {
+						hit = true
+					}
+				}
+				if hit {
+					fmt.Printf("EV %d %.300s\n", o.Idx, line)
+				}
+			}
+		}
+	}
+	if os.Getenv("VMON_DEBUG") != "" {
+		fmt.Printf("POOL %d pre %s postEnd %s postBeg %s\n", o.Idx, o.Pre.BalOf(m.R.W.PoolAddr, "aaa"), o.PostEnd.BalOf(m.R.W.PoolAddr, "aaa"), o.PostBeg.BalOf(m.R.W.PoolAddr, "aaa"))
+		for _, sl := range o.Slashes {
+			fmt.Printf("   slash %s f=%s err=%q pre-pool %s post-pool(branch) %s claims %d\n", m.R.W.Name(sl.Val), sl.Fraction, sl.Err+sl.Panic, sl.Pre.BalOf(m.R.W.PoolAddr, "aaa"), sl.Post.BalOf(m.R.W.PoolAddr, "aaa"), len(sl.Ev.Claims))
+		}
+		fmt.Printf("LEDGER %d received %s paid %s pool %s\n", o.Idx, m.rs.Received, m.rs.Paid, o.PostBeg.Bal[m.R.W.PoolAddr.String()])
+	}
 	if o.EndRes.Failed() {
 		return
 	}
 	rep := m.R.Rep
+	if o.tainted {
+		return
+	}
 	// conservation of the pool: everything forwarded = everything paid + what the pool holds
 	rep.Eval("C13.pool-ledger")
 	w := m.R.W
@@ -852,3 +910,39 @@ func fmtE(e map[string]*big.Rat) string {
 	}
 	return strings.Join(parts, ",")
 }
+
+// afterBondedSlash: copy of the snapshot with the bonded part of the specified slash applied (validator
+// shares of val x (1-f) in every asset, the assets' share totals reduced equally).
+func afterBondedSlash(pre *Snap, val string, f math.LegacyDec) *Snap {
+	cp := *pre
+	cp.Assets = map[string]types.AllianceAsset{}
+	for d, a := range pre.Assets {
+		cp.Assets[d] = a
+	}
+	cp.Vals = map[string]*ValSnap{}
+	for k, v := range pre.Vals {
+		cp.Vals[k] = v
+	}
+	v := pre.Vals[val]
+	if v == nil || !v.HasInfo {
+		return &cp
+	}
+	nv := *v
+	var shares []sdk.DecCoin
+	for _, c := range v.Info.ValidatorShares {
+		cut := c.Amount.Mul(f)
+		rest := c.Amount.Sub(cut)
+		if rest.IsPositive() {
+			shares = append(shares, sdk.NewDecCoinFromDec(c.Denom, rest))
+		}
+		if a, ok := cp.Assets[c.Denom]; ok {
+			a.TotalValidatorShares = a.TotalValidatorShares.Sub(cut)
+			cp.Assets[c.Denom] = a
+		}
+	}
+	nv.Info.ValidatorShares = shares
+	cp.Vals[val] = &nv
+	return &cp
+}
+
+type abciEvent = abcitypes.Event
